@@ -6,6 +6,7 @@ import (
 	"os"
 	"regexp"
 	"runtime"
+	"sort"
 	"strconv"
 	"time"
 
@@ -78,6 +79,24 @@ func main() {
 		runs = append(runs, r)
 		fmt.Fprintf(os.Stderr, "%-40s paths=%d done=%d infeasible=%d queries=%d solver=%.1fs wall=%.1fs viol=%d unknown=%d bound=%d unsup=%d\n",
 			r.Name, r.Paths, r.Completed, r.Infeasible, r.Queries, r.SolverTime.Seconds(), r.Wall.Seconds(), len(r.Violations), r.Unknowns, len(r.Bound), len(r.Unsupported))
+	}
+	if os.Getenv("GOSMT_FORKS") != "" {
+		for _, r := range runs {
+			type kv struct {
+				k string
+				v int
+			}
+			var l []kv
+			for k, v := range r.ForkSites {
+				l = append(l, kv{k, v})
+			}
+			sort.Slice(l, func(i, j int) bool { return l[i].v > l[j].v })
+			for i, x := range l {
+				if i < 25 {
+					fmt.Fprintf(os.Stderr, "  fork %6d  %s\n", x.v, x.k)
+				}
+			}
+		}
 	}
 	code := finish(L, runs, cfg, *prop, *evidence, *replayDir, *known, *repo, *hdir, !*noReplay, loadT, time.Since(t0))
 	os.Exit(code)
